@@ -5,5 +5,5 @@ ROOT=$(cd "$(dirname "$0")" && pwd)
 export CARGO_NET_OFFLINE=true
 mkdir -p "$ROOT/target" "$ROOT/evidence" "$ROOT/replays"
 cd "$ROOT/harness"
-cargo build --release --offline
+cargo build --release --offline --target-dir "$ROOT/target"
 echo "setup: harness built at $ROOT/target/release/vmain"
